@@ -29,6 +29,9 @@ const (
 )
 
 type Rec struct {
+	// Batch numbers the Send call (or request) the line arrived with: the
+	// halves of a joined two-command line share one batch.
+	Batch int
 	Point int    // index of the answer point
 	Text  string // line or request as received
 	Class string
@@ -70,6 +73,7 @@ type SSH struct {
 
 	Trans []Rec
 	point int
+	batch int
 	out   []string
 	stall bool
 	closed bool
@@ -140,11 +144,12 @@ func (s *SSH) Input(data string) {
 		return
 	}
 	lines := strings.Split(strings.TrimSuffix(data, "\n"), "\n")
+	s.batch++
 	for _, l := range lines {
 		if s.closed || s.stall {
 			// a stalled device reads nothing more; the line is still part
 			// of what the tool sent
-			s.Trans = append(s.Trans, Rec{Point: -1, Text: l, Class: s.classify(l), Dev: "(after stall/close)"})
+			s.Trans = append(s.Trans, Rec{Batch: s.batch, Point: -1, Text: l, Class: s.classify(l), Dev: "(after stall/close)"})
 			continue
 		}
 		s.line(l)
@@ -152,7 +157,7 @@ func (s *SSH) Input(data string) {
 }
 
 func (s *SSH) rec(text, class, dev string, accepted bool) {
-	s.Trans = append(s.Trans, Rec{Point: s.point, Text: text, Class: class, Dev: dev, Accepted: accepted})
+	s.Trans = append(s.Trans, Rec{Batch: s.batch, Point: s.point, Text: text, Class: class, Dev: dev, Accepted: accepted})
 }
 
 func (s *SSH) classify(l string) string {
@@ -686,7 +691,11 @@ func (s *SSH) linuxLine(l, class, dev string) {
 	case l == "which iptables-restore":
 		ok("/sbin/iptables-restore")
 	case l == "echo $?":
-		s.rec(l, class, dev, true)
+		s.rec(l, class, dev, dev == "")
+		if dev == DevError {
+			s.answer(l, s.errText())
+			return
+		}
 		s.answer(l, fmt.Sprint(s.lastExit))
 	case first == "ip" && len(w) > 2 && w[1] == "route":
 		if dev != "" {
